@@ -322,6 +322,19 @@ def _resolve_upvars(ctx, body, t, depth=0):
             body, t = r
             t0 = strip_clone(strip_wrap(t))
             continue
+        if t0[0] == "field":
+            # a field of a private handle struct (`self.subscribers` in `impl Subscription for
+            # SubscriberSubscription`): what the single construction site of the struct put there
+            bb_, base = _resolve_upvars(ctx, body, t0[1], depth)
+            if base == ("param", 1) and not bb_.is_closure():
+                adt = bb_.j.get("impl_adt") or ""
+                a_ = ctx.prog.facts.adts.get(adt)
+                inits = ctx.prog.struct_inits().get((adt, t0[2]), [])
+                if a_ is not None and a_.get("vis") != "Public" and len(inits) == 1:
+                    body, t = inits[0]
+                    t0 = strip_clone(strip_wrap(t))
+                    continue
+            break
         if t0[0] == "param" and not body.is_closure() and body.j.get("vis") != "Public":
             callers = ctx.prog.callers(body)
             if len(callers) != 1:
